@@ -3,6 +3,13 @@
 package e2e
 
 import (
+	"crypto/ecdsa"
+	"crypto/elliptic"
+	crand "crypto/rand"
+	"crypto/tls"
+	"crypto/x509"
+	"crypto/x509/pkix"
+	"math/big"
 	"bytes"
 	"context"
 	"encoding/binary"
@@ -41,6 +48,7 @@ type Options struct {
 	ReconnectBase   time.Duration
 	ReconnectMax    time.Duration
 	ConnectTimeout  time.Duration
+	TLS             bool // clients connect to the proxy over TLS (as with --proxy-cert-file / --proxy-key-file)
 	PreparedCache   proxycore.PreparedCache
 	RefreshHook     func()
 }
@@ -52,6 +60,7 @@ type Env struct {
 	IPs     []string
 	cancel  context.CancelFunc
 	ln      net.Listener
+	TLS     bool
 	subnet  int
 }
 
@@ -167,6 +176,15 @@ func Start(o Options) (*Env, error) {
 		e.Close()
 		return nil, err
 	}
+	if o.TLS {
+		cert, cerr := selfSigned()
+		if cerr != nil {
+			e.Close()
+			return nil, cerr
+		}
+		ln = tls.NewListener(ln, &tls.Config{Certificates: []tls.Certificate{cert}})
+		e.TLS = true
+	}
 	e.ln = ln
 	e.Addr = ln.Addr().String()
 	go func() { _ = e.Proxy.Serve(ln) }()
@@ -222,7 +240,18 @@ func DialRaw(addr string) (*Client, error) {
 
 // Dial connects and performs STARTUP with the given version and compression.
 func (e *Env) Dial(version primitive.ProtocolVersion, compression string) (*Client, error) {
-	cl, err := DialRaw(e.Addr)
+	var cl *Client
+	var err error
+	if e.TLS {
+		d := &net.Dialer{Timeout: 2 * time.Second}
+		c, derr := tls.DialWithDialer(d, "tcp", e.Addr, &tls.Config{InsecureSkipVerify: true})
+		if derr != nil {
+			return nil, derr
+		}
+		cl = &Client{c: c, Version: primitive.ProtocolVersion4}
+	} else {
+		cl, err = DialRaw(e.Addr)
+	}
 	if err != nil {
 		return nil, err
 	}
@@ -360,4 +389,30 @@ func (e *Env) WaitLog(n int, timeout time.Duration) bool {
 		time.Sleep(200 * time.Microsecond)
 	}
 	return e.Cluster.LogLen() >= n
+}
+
+var selfSignedOnce struct {
+	sync.Once
+	cert tls.Certificate
+	err  error
+}
+
+// selfSigned: a throw-away server certificate for the proxy's client-facing listener.
+func selfSigned() (tls.Certificate, error) {
+	selfSignedOnce.Do(func() {
+		key, err := ecdsa.GenerateKey(elliptic.P256(), crand.Reader)
+		if err != nil {
+			selfSignedOnce.err = err
+			return
+		}
+		tmpl := &x509.Certificate{SerialNumber: big.NewInt(1), Subject: pkix.Name{CommonName: "cql-proxy"}, NotBefore: time.Now().Add(-time.Hour), NotAfter: time.Now().Add(24 * time.Hour),
+			KeyUsage: x509.KeyUsageDigitalSignature, ExtKeyUsage: []x509.ExtKeyUsage{x509.ExtKeyUsageServerAuth}, DNSNames: []string{"localhost"}}
+		der, err := x509.CreateCertificate(crand.Reader, tmpl, tmpl, &key.PublicKey, key)
+		if err != nil {
+			selfSignedOnce.err = err
+			return
+		}
+		selfSignedOnce.cert = tls.Certificate{Certificate: [][]byte{der}, PrivateKey: key}
+	})
+	return selfSignedOnce.cert, selfSignedOnce.err
 }
